@@ -9,7 +9,7 @@ func init() {
 			"delegating records the lock↔intermediary connection and a bonded synthetic lock before staking, undelegating removes both before unstaking; every flow validates lock ownership (and single-coin locks) first; a lock can be force-unlocked through superfluid only when its synthetic lock is already unlocking; the refresh adjusts stake by the difference in the direction of the comparison.",
 		NotCovered:  []string{"stake = risk-adjusted value to within one unit per lock", "supply neutrality as a number", "drift over epochs"},
 		Assumptions: []string{"staking keeper Delegate / InstantUndelegate semantics", "cache-context helper (C17)"},
-		MinObl:      93,
+		MinObl:      96,
 		Run:         runC11,
 	})
 }
@@ -40,6 +40,7 @@ func runC11(c *rules.Ctx) {
 	c.Returns(K+"GetRiskAdjustedOsmoValue", 0, "sdkmath.Int.Sub(amount, sdkmath.LegacyDec.RoundInt(sdkmath.LegacyDec.Mul(sdkmath.Int.ToLegacyDec(amount), {RISK}))) | sdkmath.Int.Sub(amount, sdkmath.LegacyDec.RoundInt(sdkmath.LegacyDec.Mul({RISK}, sdkmath.Int.ToLegacyDec(amount))))",
 		"risk-adjusted value = amount − amount × minimum risk factor (the discount itself is never what is staked)", "")
 	c.Returns(K+"UnriskAdjustOsmoValue", 0, "sdkmath.LegacyDec.Quo(amount, sdkmath.LegacyDec.Sub(sdkmath.LegacyOneDec(), {RISK}))", "the inverse divides by 1 − minimum risk factor", "")
+	lockupForceUnlockRules(c)
 	lockupGenesisAccumulationRules(c)
 	c.CheckedCall("x/superfluid/keeper.Hooks.AfterEpochEnd", "superfluidkeeper.Keeper.AfterEpochEnd", []string{"h.k", "ctx", "epochIdentifier", "epochNumber"}, "the epoch hook wrapper fails when the keeper's epoch step fails", "")
 	// ---- the total-delegations query converts shares to tokens with the validator's exchange rate (tokens per share)
